@@ -281,6 +281,9 @@ M("C09", "section_ignores_quiet", "api/io/output.py",
 M("C16", "section_ignores_verbosity_equivalent", "api/io/output.py",
   "        section.set_verbosity(self._verbosity)\n", "", expect="silent")  # the bar resolves its format from the section's own verbosity
 
+M("C17", "help_token_not_restored", "resolver/help_resolver.py",
+  "                args.tokens.insert(0, self._help_command_name)", "                pass")
+
 
 def run_one(m, runs):
     prop, name, path, old, new, expect = m
